@@ -47,7 +47,7 @@ def describe(tier):
         'rule': 'dag: every circuit shape F(n,k,{1,2,3-operand gate}) with n+k=p nodes (inputs + gates, operand tuples '
         'with repeats, disconnected parts) x {dfs,bfs} x inverse x start_gates (full: None, every sequence of <=2 '
         'nodes, every subset; lite: None, singletons, all nodes) x topsort_unvisited, all hooks traced (with start_gates=None and topsort_unvisited the enter hook reads the state of every gate from the mapping it is given); top_sort '
-        'both directions. cyc: every directed graph on m<=4 gate nodes with 1-2 operands each over the gate nodes '
+        'both directions; the topsort_unvisited runs are repeated on the same circuit with reversed (non-topological) storage order. cyc: every directed graph on m<=4 gate nodes with 1-2 operands each over the gate nodes '
         'and one input (built with from_bench_string) x every output subset. distinct = distinct event-trace '
         'shapes / cycle verdicts.',
         'bounds': {
@@ -82,13 +82,21 @@ def start_sets(labs, mode):
     return out
 
 
-def check_dag(n, gates, acc, starts_mode, only=None):
+def check_dag(n, gates, acc, starts_mode, only=None, scrambled=False):
     k = len(gates)
     labs = space.labels(n, k)
     sinks = space.sinks(n, gates)
     outs = tuple(i for i in sinks if i >= n) or tuple(sinks[:1])
     net = space.spec_net(n, gates, outs)
     c = space.build(n, gates, outs)
+    if scrambled:
+        # reverse the storage order (a renamed gate moves to the end of the gate map): the gate map is then
+        # NOT operands-first, as after parsing a text with forward references
+        for l in reversed(labs):
+            c.rename_gate(l, l + '_t')
+            c.rename_gate(l + '_t', l)
+        if list(c.gates)[:1] == labs[:1] and len(labs) > 1:
+            acc.violation('harness/scramble-failed', lambda: space.spec_json(n, gates, outs), str(list(c.gates)))
     users = net.users()
     acc.states += 1
     case0 = lambda: space.spec_json(n, gates, outs)  # noqa: E731
@@ -107,7 +115,9 @@ def check_dag(n, gates, acc, starts_mode, only=None):
                         continue
                     acc.transitions += 1
                     acc.traces += 1
-                    case = lambda: {**space.spec_json(n, gates, outs), 'mode': mode, 'inverse': inverse, 'start': start, 'topsort_unvisited': tsu}  # noqa: E731
+                    if scrambled and not tsu:
+                        continue
+                    case = lambda: {**space.spec_json(n, gates, outs), 'mode': mode, 'inverse': inverse, 'start': start, 'topsort_unvisited': tsu, 'scrambled': scrambled}  # noqa: E731
                     ev = []
                     # "nosy" hooks look up the state of every gate in the mapping they are handed
                     nosy = tsu and start is None
@@ -251,6 +261,8 @@ def run_task(task, acc):
     alpha = ALPHAS[task['alpha']]
     for gates in space.enum_gates(task['n'], task['k'], alpha, space.prefix_from_task(task)):
         check_dag(task['n'], gates, acc, task['starts'])
+        if task['n'] + task['k'] <= 4 or task['starts'] == 'lite':
+            check_dag(task['n'], gates, acc, 'lite', scrambled=True)
 
 
 def replay(case, acc):
@@ -274,4 +286,4 @@ def replay(case, acc):
         return
     n, gates, outs = space.spec_from_json(case)
     only = [case['mode'], case['inverse'], case['start'], case['topsort_unvisited']] if 'mode' in case else None
-    check_dag(n, gates, acc, 'full', only)
+    check_dag(n, gates, acc, 'full', only, scrambled=case.get('scrambled', False))
